@@ -10,7 +10,6 @@ import (
 	"math"
 	"math/big"
 	"math/rand"
-	"os"
 	"sort"
 	"strconv"
 	"strings"
@@ -18,7 +17,6 @@ import (
 	"0chain.net/chaincore/block"
 	"0chain.net/chaincore/chain"
 	"0chain.net/chaincore/transaction"
-	"0chain.net/core/common"
 	"0chain.net/miner"
 	"github.com/0chain/common/core/util"
 	"verifharness/lib/corr"
@@ -680,6 +678,7 @@ func oracle(ops, outs []string) *corr.Violation {
 		pool      [][]string
 		biCosts   map[string]int64
 		block     []ent
+		blkMaxInt bool
 		haveBlock bool
 		genIdx    int
 		known     *corr.Violation
@@ -813,6 +812,7 @@ func oracle(ops, outs []string) *corr.Violation {
 				}
 				total.Add(total, big.NewInt(c))
 			}
+			blkMaxInt = hasMaxInt
 			if nPool > 0 && total.Cmp(big.NewInt(maxCost)) >= 0 {
 				if !hasMaxInt {
 					return mk("block-cost-limit-exceeded", fmt.Sprintf("cost %s, limit %d", total, maxCost), i)
@@ -851,6 +851,10 @@ func oracle(ops, outs []string) *corr.Violation {
 			}
 			if outs[i] == "fail txn" && dupName {
 				known = mk("pool-transaction-with-builtin-name-fails-verification", "a pool transaction whose function NAME equals a built-in one is included by the generator; the verifier rejects the block as 'duplicated build-in transaction'", i)
+				continue
+			}
+			if outs[i] == "fail cost" && blkMaxInt {
+				known = mk("cost-limit-bypassed-by-maxint-estimate", "a transaction with the estimate MaxInt got into the block behind a built-in transaction that then failed to execute; the verifier sums only the block and rejects it with ErrCostTooBig", i)
 				continue
 			}
 			if outs[i] == "fail cost" {
@@ -937,10 +941,6 @@ func fixedCases() [][]string {
 	}
 }
 
-func coinStr(u uint64) string { return strconv.FormatUint(u, 10) }
-
-var _ = common.Now
-var _ = os.Getenv
 
 func main() {
 	setup()
